@@ -100,9 +100,11 @@ def lower(s):
 class World:
     """one sqlite database per integration + the reference database holding everything"""
 
-    def __init__(self, schema):
-        # schema: {integration: {table: [columns]}}
+    def __init__(self, schema, names=None):
+        # schema: {integration: {table: [columns]}} in LOGICAL names; names: logical word -> the name the engines really use
+        # (any string: dots, spaces, keywords, upper case); tables and columns are created with sqlite's "…" quoting
         self.schema = schema
+        self.names = dict(names or {})
         self.ints = {}
         self.ref = sqlite3.connect(':memory:')
         for i, tabs in schema.items():
@@ -110,18 +112,22 @@ class World:
             self.ints[i] = c
             self.ref.execute("ATTACH ':memory:' AS %s" % i)
             for t, cols in tabs.items():
-                c.execute('CREATE TABLE %s (%s)' % (t, ', '.join(cols)))
-                self.ref.execute('CREATE TABLE %s.%s (%s)' % (i, t, ', '.join(cols)))
+                cs = ', '.join(self.qn(x) for x in cols)
+                c.execute('CREATE TABLE %s (%s)' % (self.qn(t), cs))
+                self.ref.execute('CREATE TABLE %s.%s (%s)' % (i, self.qn(t), cs))
         self.scratch = sqlite3.connect(':memory:')
         self.ntmp = 0
 
+    def qn(self, word):
+        return '"%s"' % self.names.get(word, word).replace('"', '""')
+
     def load(self, contents):
-        """contents: {(integration, table): [rows]}"""
+        """contents: {(integration, table): [rows]} (logical table names)"""
         for i, tabs in self.schema.items():
             for t, cols in tabs.items():
                 rows = contents.get((i, t), [])
                 ph = ','.join('?' * len(cols))
-                for conn, name in ((self.ints[i], t), (self.ref, '%s.%s' % (i, t))):
+                for conn, name in ((self.ints[i], self.qn(t)), (self.ref, '%s.%s' % (i, self.qn(t)))):
                     conn.execute('DELETE FROM %s' % name)
                     if rows:
                         conn.executemany('INSERT INTO %s VALUES (%s)' % (name, ph), rows)
